@@ -1,6 +1,7 @@
 package did
 
 import (
+	"bytes"
 	"crypto/ecdsa"
 	"crypto/elliptic"
 	"crypto/x509"
@@ -142,6 +143,13 @@ func rsaPubKeyUnmarshaller(data []byte) (crypto.PubKey, error) {
 	rsaPublicKey, err := x509.ParsePKCS1PublicKey(data)
 	if err != nil {
 		return nil, err
+	}
+
+	// did:key only uses the DER encoding of RSAPublicKey: the parser also accepts
+	// extra elements inside the sequence, which would give several DIDs to the
+	// same principal.
+	if !bytes.Equal(x509.MarshalPKCS1PublicKey(rsaPublicKey), data) {
+		return nil, fmt.Errorf("RSA public key is not in its canonical PKCS#1 DER encoding")
 	}
 
 	pkix, err := x509.MarshalPKIXPublicKey(rsaPublicKey)
